@@ -81,6 +81,18 @@ PIPE_NOTE = ("Design level: OwningIovecImpl.tla transcribes OwningIovec / Global
              "by the allocator can hide a dangling slice from the registry classification (content comparison still applies). A process "
              "death of the harness (abort on an unsafe-precondition check, segfault) in a run is recorded as a violation of C05.")
 
+TLV_NOTE = ("Bounded: all byte strings of <= 4 (5) words over 10 word values (0,1,2,3,4,8,12,65536,2^29,2^32-1) with 0..3 trailing bytes; "
+            "all lists of <= 3 (4) pairs over 3 tags x 4 value lengths; beyond that random strings / nested messages / long lists. "
+            "Words are compared as 16-bit halves and lengths as 20-bit limbs because TLC integers are 32-bit. The pair-count limit "
+            "(> 2^31 pairs) is not exercised. Values that only report a length (never written) are used for the i32::MAX boundaries.")
+
+ATOMIC_NOTE = ("Bounded: thread programs of 2-4 threads with <= 4 calls each; the design MC is exhaustive per program (RA and SC), the "
+               "exploration of the real code is an edge cover of one MC graph plus sampled schedules x reads-from choices. Memory "
+               "model: stores append to modification order (exact while writers are serialised by the lock), no out-of-thin-air / "
+               "load-buffering for relaxed accesses, no sequence wrap-around. Trusts hook H4 (stand-ins pass through to std when "
+               "no scheduler is registered), the harness's memory simulation (every recorded execution is re-checked for legality "
+               "by TLC against the TLA+ memory model; an illegal one is a tool error), TLC.")
+
 CHECKS = {
     "C19": {
         "engine": "nfs",
